@@ -28,7 +28,7 @@ PROPS = {
     },
     "C20": {
         "level": "proof",
-        "cone": ["model/Bytes.v", "model/Text.v", "proofs/TextProofs.v", "proofs/EscapeProofs.v", "proofs/Utf8Proofs.v", "proofs/JsonProofs.v", "proofs/HtmlProofs.v", "props/C20.v"],
+        "cone": ["model/Bytes.v", "model/Text.v", "proofs/TextProofs.v", "proofs/EscapeProofs.v", "proofs/Utf8Proofs.v", "proofs/JsonProofs.v", "proofs/HtmlProofs.v", "proofs/TruncProofs.v", "props/C20.v"],
         "trusted_base": COMMON_TB + [
             "model/Text.v re-implements unicode/utf8 decoding, helpers/text/truncate.go, text/template.HTMLEscapeString and JSEscapeString, and encoding/json's encoder for null/bool/int/string/array/object; these standard-library functions are modelled, not verified (tied by differential runs)",
             "unicode.IsPrint is an oracle (section variable is_print); the harness supplies its value for the runes of each case",
